@@ -337,6 +337,40 @@ func init() {
 			hit, path := q.reach(f.Blocks[0], 0)
 			c.Check(hit == nil, funcKey(f)+" :: the rejection is recorded on every path", w.pos(f.Pos()), spec.m+"[key] = true before every return", "a return is reachable without the blacklist entry being written: "+pathStr(w, path))
 		}
+		// the blacklists only grow: entries are written as true, never deleted, and the maps are only
+		// (re)built by the pool's constructor — a rejected snapshot / format / sender that drops off a
+		// blacklist (e.g. when the peer disconnects) is offered to the application again
+		kb := newKeyer()
+		nb := 0
+		for _, f := range w.FuncsInPkg("statesync") {
+			for _, b := range f.Blocks {
+				for _, in := range b.Instrs {
+					switch x := in.(type) {
+					case *ssa.MapUpdate:
+						m := w.expr(x.Map)
+						if !strings.HasSuffix(m, "Blacklist") {
+							continue
+						}
+						nb++
+						v, isC := boolConst(x.Value)
+						c.Check(isC && v, kb.key(f, "blacklist entries are only ever set"), w.ipos(x), m+"[k] = true", m+" entry written with "+w.expr(x.Value))
+					case ssa.CallInstruction:
+						if b, ok := x.Common().Value.(*ssa.Builtin); ok && b.Name() == "delete" && len(x.Common().Args) > 0 {
+							m := w.expr(x.Common().Args[0])
+							if strings.HasSuffix(m, "Blacklist") {
+								c.Fail(kb.key(f, "blacklist entries are never deleted"), w.ipos(x), "delete from "+m+": the rejected key can be admitted again")
+							}
+						}
+					}
+				}
+			}
+			for _, fld := range []string{"formatBlacklist", "peerBlacklist", "snapshotBlacklist"} {
+				for _, fs := range w.fieldStoresInRaw(f, "statesync", "snapshotPool", fld) {
+					c.Check(f.Name() == "newSnapshotPool", kb.key(f, "blacklist maps are built only by the constructor"), w.ipos(fs.Store), "newSnapshotPool", fld+" is replaced in "+funcKey(f))
+				}
+			}
+		}
+		c.Check(nb >= 3, "statesync :: blacklist writes found", "-", ">= 3", fmt.Sprintf("%d", nb))
 		// SyncAny maps the three rejections to the three blacklists
 		if f := c.fn("statesync", "syncer.SyncAny"); f != nil {
 			fk := funcKey(f)
